@@ -139,6 +139,7 @@ pub fn random_fin(rng: &mut StdRng) -> FinCfg {
 pub fn random_history(t: &mut Tracer, rng: &mut StdRng, note: &str) -> String {
     let rq = random_rq(rng);
     FRAMING_IN_PREPARE.with(|x| x.set(rng.gen_bool(0.3)));
+    REPEATED_HEADERS.with(|x| x.set(rng.gen_bool(0.25)));
     let body_due = matches!(rq.method.as_str(), "POST" | "PUT" | "PATCH") || rq.despite;
     let early = if rq.expect && body_due && rng.gen_bool(0.7) {
         Some(EarlyMsg::new(["100", "refuseBare", "refuseFields", "refuseFieldsClose"][rng.gen_range(0..4)], rng.gen_range(0..8)))
@@ -304,6 +305,7 @@ pub fn c09(o: &Opts, t: &mut Tracer) -> Value {
 pub fn run_to_cleanup(t: &mut Tracer, rq: RqCfg, early: Option<EarlyMsg>, give_up: bool, fin: &FinCfg, v: usize, note: &str) {
     let despite = rq.despite;
     FRAMING_IN_PREPARE.with(|x| x.set(v % 3 == 1));
+    REPEATED_HEADERS.with(|x| x.set(v % 5 == 2));
     let mut sim = match Sim::new(t, rq, early.clone(), v, note) {
         Some(s) => s,
         None => return,
@@ -460,7 +462,7 @@ pub fn c10(o: &Opts, t: &mut Tracer) -> Value {
     }
     // every final status on an exchange where none of the five conditions holds (and with the response asking to keep the
     // connection): the verdict does not depend on what the status says
-    for st in 200u16..=999 {
+    for st in (101u16..=199).chain(200u16..=999) {
         if o.quick() && st >= 600 && st % 25 != 24 {
             continue;
         }
